@@ -84,7 +84,7 @@ class C20(PropCheck):
             "at the k-th call for every k; modes: random op sequences (length <= 14) on 1-3 threads; non-trivial = a manager active "
             "/ a fault fired / a set op present")
     manifest = {
-        "text": "Lean: C20_mode (for every sequence of set_trickery_enabled calls and queries each query sees the latest set value, auto-detection after None), C20_set_takes_effect, C20_fail_warns (any exception inside the trickery analysis: referents result, exactly one warning, nothing raised) with C20_no_spurious_warning, C20_sound_ordered (any sub-sequence of the frame's exit-method references appears, in order, with the same obj and is_async), C20_exiting_iff (an is_exiting entry exactly when an exit is in progress, and last), C20_extras_are_referenced. That the truly active managers' exit methods ARE such a sub-sequence of gc.get_referents (CPython's frame traversal order) and that extras can only be the manager being entered or exited is measured on generated programs at every suspension point.",
+        "text": "Lean: C20_mode (for every sequence of set_trickery_enabled calls and queries each query sees the latest set value, auto-detection after None), C20_set_takes_effect, C20_fail_warns (any exception inside the trickery analysis: referents result, exactly one warning, nothing raised) with C20_no_spurious_warning, C20_sound_ordered (any sub-sequence of the frame's exit-method references appears, in order, with the same obj and is_async), C20_exiting_iff (an is_exiting entry exactly when an exit is in progress, and last), C20_extras_are_referenced; C20_fast_path_source (the unlocked fast path of _check_trickery_available loads the setting once: count re-read from the source on every run) and C20_fast_path_atomic (with that fast path, whatever other threads do to the setting between any two steps of the call, it returns a Boolean that one of the settings it saw stands for, never None) with C20_F55_old_code_witness (the two-read fast path before F55 returns None when set_trickery_enabled(None) lands between the reads); tied to the real function by forcing set_trickery_enabled(v1) into the second step of a call made under setting v0, for all nine (v0, v1). That the truly active managers' exit methods ARE such a sub-sequence of gc.get_referents (CPython's frame traversal order) and that extras can only be the manager being entered or exited is measured on generated programs at every suspension point.",
         "note": "Partial as C01 for the compiler/runtime half. The mode switch is modelled sequentially (lock = atomic steps); threads are exercised in a forced order.",
     }
     assumptions = ["gc.get_referents(generator) yields locals then value-stack slots bottom to top"]
@@ -119,6 +119,9 @@ class C20(PropCheck):
             for _ in range(rng.randint(1, 14)):
                 ops.append("query" if rng.random() < 0.55 else ["set", rng.choice([True, False, None])])
             out.append({"k": "modes", "ops": ops, "threads": rng.randint(1, 3), "tseed": rng.randrange(1 << 30)})
+        for v0 in (False, True, None):
+            for v1 in (False, True, None):
+                out.append({"k": "fastpath", "v0": v0, "v1": v1})
         for v in (False, True, None):
             out.append({"k": "race", "value": v})
             out.append({"k": "race", "value": v, "shape": "set_before_lock"})
@@ -158,7 +161,48 @@ class C20(PropCheck):
             return self.run_faults(case)
         if case["k"] == "race":
             return self.run_race(case)
+        if case["k"] == "fastpath":
+            return self.run_fastpath(case)
         return self.run_modes(case)
+
+    def run_fastpath(self, case):
+        """One call of _check_trickery_available() while another thread's set_trickery_enabled(v1) completes between two steps of
+        its fast path (forced with a line hook on the second line the call executes); the setting before the call is v0."""
+        from stackscope import _lowlevel as L
+
+        v0, v1 = case["v0"], case["v1"]
+        L.set_trickery_enabled(v0)
+        code = L._check_trickery_available.__code__
+        state = {"lines": 0, "ran": False}
+
+        def local(frame, event, arg):
+            if event == "line":
+                state["lines"] += 1
+                if state["lines"] == 2 and not state["ran"]:
+                    state["ran"] = True
+                    t = threading.Thread(target=L.set_trickery_enabled, args=(v1,))
+                    t.start()
+                    t.join()
+            return local
+
+        def tracer(frame, event, arg):
+            return local if frame.f_code is code else None
+
+        with warnings.catch_warnings():
+            warnings.simplefilter("ignore")
+            sys.settrace(tracer)
+            try:
+                r = L._check_trickery_available()
+            finally:
+                sys.settrace(None)
+        if not state["ran"]:
+            self._probs.append("harness: the fast-path window was not reached")
+        explained = {True if v is None else v for v in (v0, v1)}          # (auto-detection yields True on this interpreter)
+        if r not in explained or r is None:
+            self._probs.append(f"setting {v0!r} before the call, set_trickery_enabled({v1!r}) completing inside its fast path: the call "
+                               f"returned {r!r}; the settings it can have seen stand for {sorted(explained)}")
+        L.set_trickery_enabled(None)
+        return "N" if r is None else ("T" if r else "F")
 
     def run_race(self, case):
         """set_trickery_enabled(v) issued by another thread while auto-detection is in progress: once the set call
@@ -431,6 +475,8 @@ class C20(PropCheck):
         return " ".join(out)
 
     def model_line(self, case):
+        if case["k"] == "fastpath":
+            return json.dumps({"p": "C20", "mode": "fastpath", "v0": case["v0"], "v1": case["v1"]})
         if case["k"] != "modes":
             return None
         return json.dumps({"p": "C20", "ops": case["ops"]})
@@ -448,6 +494,8 @@ class C20(PropCheck):
         if case["k"] == "faults" and case.get("_fired", 0) > 0:
             return json.dumps({k: v for k, v in case.items() if not k.startswith("_")}, sort_keys=True)
         if case["k"] == "modes" and any(op != "query" for op in case["ops"]):
+            return json.dumps(case, sort_keys=True)
+        if case["k"] == "fastpath":
             return json.dumps(case, sort_keys=True)
         return None
 
